@@ -14,6 +14,9 @@
 #include "common/vh.hpp"
 
 #include <sys/mman.h>
+#ifdef VH_VALGRIND
+#include <valgrind/memcheck.h>
+#endif
 
 using namespace vh;
 
@@ -122,9 +125,27 @@ struct MemDrv {
         if (which != 3 && pl.tail) fill_sentinels(pl.p + k, pl.tail);
         A r{};
         const S* ptr = reinterpret_cast<const S*>(pl.p);
+        std::string vg;
+#ifdef VH_VALGRIND
+        // byte-exact read footprint: everything around the addressed elements is marked inaccessible for memcheck
+        unsigned long e0 = 0;
+        if (which != 3) {
+            if (pl.lead) VALGRIND_MAKE_MEM_NOACCESS(pl.p - pl.lead, pl.lead);
+            if (pl.tail) VALGRIND_MAKE_MEM_NOACCESS(pl.p + k, pl.tail);
+            e0 = VALGRIND_COUNT_ERRORS;
+        }
+#endif
         int sg = guarded([&] { r = avel::to_array(f(ptr)); });
+#ifdef VH_VALGRIND
+        if (which != 3) {
+            unsigned long e1 = VALGRIND_COUNT_ERRORS;
+            if (pl.lead) VALGRIND_MAKE_MEM_DEFINED(pl.p - pl.lead, pl.lead);
+            if (pl.tail) VALGRIND_MAKE_MEM_DEFINED(pl.p + k, pl.tail);
+            vg = ",\"vgerr\":" + std::to_string(e1 - e0);
+        }
+#endif
         std::string s = head("load", n) + ",\"place\":\"" + pl.name + "\",\"src\":" + bytes(src.data(), k) + ",\"r\":" +
-                        (sg ? std::string("[]") : bytes(r.data(), N * W)) + ",\"sig\":\"" + signame(sg) + "\"}";
+                        (sg ? std::string("[]") : bytes(r.data(), N * W)) + vg + ",\"sig\":\"" + signame(sg) + "\"}";
         emit_raw(s, tn, form);
     }
 
